@@ -543,7 +543,7 @@ type c18PayloadCase struct {
 func TestC18Payload(t *testing.T) {
 	kit.Run(t, kit.Spec[c18PayloadCase]{
 		Prop: "C18",
-		Rule: "--payload strings: every generated byte string rendered as \\xHH, octal, printable-literal mix or Go's own literal rendering (\\u / \\U escapes; byte strings and UTF-8 text with control, C1, separator, BOM and non-BMP runes) must parse back to exactly those bytes; mutated renderings and arbitrary strings must be refused or equal the reference unescape (Go string-literal escapes). raw non-UTF-8 input is a documented don't-care. non-trivial: non-empty; distinct by input",
+		Rule: "--payload strings: every generated byte string rendered as \\xHH, octal, printable-literal mix or Go's own literal rendering (\\u / \\U escapes; byte strings and UTF-8 text with control, C1, separator, BOM and non-BMP runes) must parse back to exactly those bytes; mutated renderings and arbitrary strings must be refused or equal the reference unescape (Go string-literal escapes). raw bytes, also non-UTF-8 ones as a shell's $'..' passes them, denote themselves. non-trivial: non-empty; distinct by input",
 		Gen: func(t *rapid.T) c18PayloadCase {
 			n := rapid.SampledFrom([]int{0, 1, 2, 3, 16, 255, 1460, -1}).Draw(t, "len")
 			if n < 0 {
@@ -560,8 +560,24 @@ func TestC18Payload(t *testing.T) {
 			}
 			s := gram.RenderPayload(val, rapid.IntRange(0, 4).Draw(t, "mode"))
 			c := c18PayloadCase{Input: s, Canonical: true, Value: val, Origin: "canonical"}
-			switch rapid.IntRange(0, 3).Draw(t, "origin") {
+			switch rapid.IntRange(0, 4).Draw(t, "origin") {
 			case 0, 1:
+			case 4:
+				// the bytes written as they are (what a shell's $'\xff...' hands over): only backslash, quote and newline escaped
+				var sb strings.Builder
+				for _, b := range val {
+					switch b {
+					case '\\':
+						sb.WriteString(`\\`)
+					case '"':
+						sb.WriteString(`\"`)
+					case '\n':
+						sb.WriteString(`\n`)
+					default:
+						sb.WriteByte(b)
+					}
+				}
+				c.Input, c.Canonical, c.Origin = sb.String(), false, "raw-bytes"
 			case 2:
 				c.Input, c.Canonical, c.Origin = c18Mutate(t, s, []rune(`\x0123456789abcdefABCDEFuUntr"'`+"\n\x00 é ")), false, "mutated"
 			default:
